@@ -285,7 +285,10 @@ psRes_t psX509ParseCertData(psPool_t *pool,
                 certData->len,
                 &current,
                 flags);
-        if (err < 0 && !(flags & CERT_ALLOW_BUNDLE_PARTIAL_PARSE))
+        /* current == NULL: not even the certificate structure could be
+           allocated, there is nothing to link into the list. */
+        if (err < 0 && (current == NULL
+                        || !(flags & CERT_ALLOW_BUNDLE_PARTIAL_PARSE)))
         {
             psX509FreeCert(current);
             psFreeList(certDatas, pool);
@@ -3439,6 +3442,11 @@ int32_t parsePolicyQualifierInfo(psPool_t *pool,
             return PS_PARSE_FAIL;
         }
         qualInfo->cps = psMalloc(pool, len + 1);
+        if (qualInfo->cps == NULL)
+        {
+            psTraceCrypto("Memory allocation failure.\n");
+            return PS_MEM_FAIL;
+        }
         qualInfo->cpsLen = len;
         Memcpy(qualInfo->cps,
             p, len);
@@ -3883,7 +3891,7 @@ int32_t parsePolicyMappings(psPool_t *pool,
         p += len;
 
         pol_map->subjectDomainPolicy = psMalloc(pool, sizeof(psAsnOid_t));
-        if (pol_map->issuerDomainPolicy == NULL)
+        if (pol_map->subjectDomainPolicy == NULL)
         {
             psTraceCrypto("Memory allocation failure.\n");
             return PS_PARSE_FAIL;
@@ -4766,6 +4774,10 @@ KNOWN_EXT:
             policiesEnd = p + len;
             extensions->certificatePolicy.policy
                 = psMalloc(pool, sizeof(x509PolicyInformation_t));
+            if (extensions->certificatePolicy.policy == NULL)
+            {
+                return PS_MEM_FAIL;
+            }
             Memset(extensions->certificatePolicy.policy, 0,
                 sizeof(x509PolicyInformation_t));
             pPolicy = extensions->certificatePolicy.policy;
@@ -4785,6 +4797,10 @@ KNOWN_EXT:
             {
 
                 pPolicy->next = psMalloc(pool, sizeof(x509PolicyInformation_t));
+                if (pPolicy->next == NULL)
+                {
+                    return PS_MEM_FAIL;
+                }
                 Memset(pPolicy->next, 0, sizeof(x509PolicyInformation_t));
                 pPolicy = pPolicy->next;
                 if (parsePolicyInformation(pool, p, extEnd, fullExtLen,
@@ -4808,6 +4824,10 @@ KNOWN_EXT:
         case OID_ENUM(id_ce_policyMappings):
             extensions->policyMappings = psMalloc(pool,
                 sizeof(x509policyMappings_t));
+            if (extensions->policyMappings == NULL)
+            {
+                return PS_MEM_FAIL;
+            }
             Memset(extensions->policyMappings, 0, sizeof(x509policyMappings_t));
             if (parsePolicyMappings(pool, p,
                     extEnd,
@@ -5611,6 +5631,11 @@ oid_parsing_done:
             break;
         case ATTRIB_ORG_UNIT:
             orgUnit = psMalloc(pool, sizeof(x509OrgUnit_t));
+            if (orgUnit == NULL)
+            {
+                psFree(stringOut, pool);
+                return PS_MEM_FAIL;
+            }
             orgUnit->name = stringOut;
             orgUnit->type = (short) stringType;
             orgUnit->len = llen;
@@ -5656,6 +5681,11 @@ oid_parsing_done:
             break;
         case ATTRIB_DOMAIN_COMPONENT:
             domainComponent = psMalloc(pool, sizeof(x509DomainComponent_t));
+            if (domainComponent == NULL)
+            {
+                psFree(stringOut, pool);
+                return PS_MEM_FAIL;
+            }
             domainComponent->name = stringOut;
             domainComponent->type = (short) stringType;
             domainComponent->len = llen;
